@@ -1,5 +1,10 @@
 use std::borrow::Cow;
+#[cfg(not(betaveros_noulith_verif))]
 use std::collections::{HashMap, HashSet};
+#[cfg(betaveros_noulith_verif)]
+use std::collections::HashSet;
+#[cfg(betaveros_noulith_verif)]
+use crate::verif_hooks::HashMap;
 
 pub use crate::core::*;
 
